@@ -475,12 +475,214 @@ def check_plans(specs: List[Dict[str, Any]], rep_prefix: str, run_accepted: int 
     return out
 
 
+# ------------------------------------------------------------------------------------------------------------
+# the known planner-defect domains on EXPORTED plans, evaluated in Coq (coq/Model/PlanDefects.v)
+# ------------------------------------------------------------------------------------------------------------
+REQ_D = REQ + ["MV.Model.PlanDefects"]
+KF_KEYS = {1: "C01-tfs-missing", 2: "C01-tfs-partial-requirement", 4: "C01-framework-roundtrip-wrong-object"}
+
+
+def cq_xplan(p: Dict[str, Any]) -> str:
+    """harness.universe.export_plan dict -> PlannerB.bplan term (frameworks and groups numbered per plan, 0 = none)."""
+    cf: Dict[str, int] = {}
+    gr: Dict[str, int] = {}
+
+    def num(d: Dict[str, int], k: Optional[str]) -> int:
+        if k is None:
+            return 0
+        if k not in d:
+            d[k] = len(d) + 1
+        return d[k]
+    out = []
+    for s in p["steps"]:
+        kind = {"FG": "KFG", "TFS": "KTFS", "JOIN": "KJOIN"}[s["kind"]]
+        step = (f"{{| sid := {cq_nat(s['sid'])}; skind := {kind}; uuids := {_nl(s['uuids'])}; req := {_nl(s['req'])}; "
+                f"requested := {cq_bool(bool(s.get('requested')))} |}}")
+        if s["kind"] == "FG":
+            f = (num(cf, s["cfw"]), 0, num(gr, s["group"]), 0, s["any_uuid"] or 0, s["children_if_root"], s["tfs_ids"], False)
+        elif s["kind"] == "TFS":
+            f = (num(cf, s["to_cfw"]), num(cf, s["from_cfw"]), num(gr, s["to_group"]), num(gr, s["from_group"]), 0, [], [],
+                 s.get("link_id") is not None)
+        else:
+            f = (num(cf, s["left_cfw"]), num(cf, s["right_cfw"]), 0, 0, 0, [], [], False)
+        out.append(f"{{| bs := {step}; b_cfw := {cq_nat(f[0])}; b_from := {cq_nat(f[1])}; b_grp := {cq_nat(f[2])}; b_fgrp := {cq_nat(f[3])}; "
+                   f"b_any := {cq_nat(f[4])}; b_cir := {_nl(f[5])}; b_tfs := {_nl(f[6])}; b_link := {cq_bool(f[7])} |}}")
+    return cq_list(out)
+
+
+def cq_adj(adj: Sequence[Tuple[int, Sequence[int]]]) -> str:
+    return cq_list(f"({cq_nat(c)}, {_nl(ps)})" for c, ps in adj)
+
+
+def _eval_nat_lists(rep_prefix: str, name: str, defs: str, terms: List[str], case_type: str, fn: str, shard: int = 150) -> List[Any]:
+    """[fn t for t in terms] evaluated by vm_compute (fn : case_type -> nat), batched over coqc processes."""
+    import re
+    from concurrent.futures import ThreadPoolExecutor
+    shards = [terms[i:i + shard] for i in range(0, len(terms), shard)]
+
+    def one(k: int) -> List[int]:
+        body = (defs + f"\nDefinition cases : list ({case_type}) := [\n" + ";\n".join(shards[k]) + "\n].\n"
+                f"Eval vm_compute in map ({fn}) cases.")
+        o = vlib.coq_eval(rep_prefix, f"{name}_{k}", REQ_D, body)
+        m = re.search(r"=\s*\[(.*?)\]\s*:\s*list nat", o, re.S)
+        if not m:
+            raise RuntimeError("cannot parse coqc output:\n" + o[-1500:])
+        vals = [int(x) for x in re.findall(r"\d+", m.group(1))]
+        if len(vals) != len(shards[k]):
+            raise RuntimeError(f"{len(vals)} results for {len(shards[k])} cases")
+        return vals
+    with ThreadPoolExecutor(max_workers=vlib.NCPU) as ex:
+        res = list(ex.map(one, range(len(shards))))
+    return [v for r in res for v in r]
+
+
+def classify(plans: List[Dict[str, Any]], adjs: Optional[List[Any]] = None, rep_prefix: str = "PlanDefects") -> List[Set[str]]:
+    """Per exported plan (harness.universe.export_plan) the set of known-finding keys whose domain (coq/Model/PlanDefects.v)
+    contains it.  adjs[i] = harness.orch.export_adj(plan) taken right after the prepare (precise); None: the feature graph
+    is approximated from the required sets of the plan (PlanDefects.adj_from_plan)."""
+    if not plans:
+        return []
+    terms = []
+    for i, p in enumerate(plans):
+        a = adjs[i] if adjs is not None and adjs[i] is not None else None
+        terms.append(f"({cq_xplan(p)}, {cq_adj(a)})" if a is not None else f"(let xp := {cq_xplan(p)} in (xp, adj_from_plan xp))")
+    codes = _eval_nat_lists(rep_prefix, "classify", "", terms, "bplan * xadj", "classify_plan")
+    return [{k for b, k in KF_KEYS.items() if c & b} for c in codes]
+
+
+def python_classify(p: Dict[str, Any]) -> Set[str]:
+    from harness.universe import kf_tfs_partial_requirement, kf_framework_roundtrip, kf_tfs_missing
+    out = set()
+    if kf_tfs_missing(p):
+        out.add(KF_KEYS[1])
+    if kf_tfs_partial_requirement(p):
+        out.add(KF_KEYS[2])
+    if kf_framework_roundtrip(p):
+        out.add(KF_KEYS[4])
+    return out
+
+
+def explain(key: str, coq: bool, py: bool, run_failed: Optional[bool]) -> str:
+    """Which side is right when the Coq and the Python predicate disagree on one plan (see NOTES_planB.md, section 4)."""
+    if key == KF_KEYS[1]:
+        if py and not coq:
+            return ("Python too broad: it counts EVERY required feature on another framework (also ancestors that are not inputs, e.g. the "
+                    "first framework of a chain A -> B -> C, and inputs reached through a same-framework parent) and only looks at the "
+                    "DIRECT required_uuids (a later level of a consumer group waits for the transform step through the earlier level)")
+        return ("Coq right: a maximal input of a non-representative feature has no transform step with the right from/to GROUPS among "
+                "the steps the consumer waits for; Python accepts any transform step from that framework")
+    if key == KF_KEYS[2]:
+        if py and not coq:
+            return ("Python too broad: it ignores the from_group of the transform step (any feature-group step on the source framework "
+                    "counts) and takes every required ancestor, not only the maximal inputs")
+        return ("Coq right: the consumer waits for the transform step only through an earlier step of its group (Python looks at consumers "
+                "of the same to_group but requires cfw equality with to_cfw; here the served input is produced by a step the kept "
+                "transform step does not wait for)")
+    if py and not coq:
+        return ("Python too broad: its first clause takes ANY earlier feature-group step of the consumer's framework whose children contain "
+                "the lookup uuid - also the earlier level of the consumer's own group, which computes on the very object the consumer "
+                "expects - and it fires for dangling tfs_ids")
+    return ("Coq right: the children of a transform step's object are those of the object's CREATOR (usually the root step), not of the "
+            "producer of the required uuid as Python assumes; a second transform step into the same class is a rival even when the "
+            "consumer does not descend from the feature that step requires")
+
+
+def compare_predicates(n: int = 320, seed: int = 0, rep_prefix: str = "PlanDefects") -> Dict[str, Any]:
+    """classify (Coq) against the three Python predicates on >= n accepted plans of the mix of generators the properties
+    use (C01's: two linked roots / typed mix / merge-free multi-framework DAGs) plus the B1 generators; every plan is also
+    RUN in SYNC: on the merge-free part a failing run outside all Coq domains means the Coq domains are too narrow."""
+    from harness import daggen
+    from harness.c01 import judge_trace
+    from harness.universe import Universe, export_plan
+    from harness.orch import install, export_adj, GateListener, run_observed
+    logging.disable(logging.CRITICAL)
+    install()
+    rng = random.Random(seed * 7919 + 11)
+    recs: List[Dict[str, Any]] = []
+    tries = 0
+    while len(recs) < n and tries < 20 * n:
+        tries += 1
+        r0 = rng.random()
+        if r0 < 0.10:
+            spec, fam = daggen.gen_two_roots_inner(rng), "two_roots_inner"
+        elif r0 < 0.25:
+            spec, fam = daggen.gen_typed_mix(rng), "typed_mix"
+        elif r0 < 0.70:
+            spec, fam = daggen.gen_single_root(rng), "single_root"
+        else:
+            spec, fam = gen_any(rng), "b1"
+        gl = GateListener()
+        uni = Universe(spec, gl)
+        try:
+            sess = uni.prepare()
+        except Exception:  # noqa: BLE001
+            continue
+        plan = export_plan(sess, uni)
+        adj = export_adj(plan)
+        o = run_observed(sess, timeout=20.0)
+        judge = judge_trace(spec, gl.events, plan, o["begin_order"], o["status"], gl.calls)
+        foot = sorted((sid, w - 1) for sid, (w, _r) in o["foot"].items() if sid >= 0)
+        recs.append({"spec": spec, "family": fam, "plan": {k: v for k, v in plan.items() if k != "_ren"}, "adj": adj,
+                     "status": o["status"], "judge": judge, "failed": o["status"] != "ok" or judge is not None,
+                     "exc": str(o.get("exc"))[-160:] if o["status"] == "raised" else None, "foot": foot,
+                     "merge_free": fam in ("single_root", "typed_mix")})
+        uni.dispose()
+    plans = [r["plan"] for r in recs]
+    coq = classify(plans, [r["adj"] for r in recs], rep_prefix)
+    coq_plan_only = classify(plans, None, rep_prefix + "_po")
+    py = [python_classify(p) for p in plans]
+    # routing of the SYNC run against PlanDefects.route_sync (link-free plans that ran to the end)
+    ridx = [i for i, r in enumerate(recs) if r["status"] == "ok" and not any(s["kind"] == "JOIN" for s in r["plan"]["steps"])]
+    rterms = [f"({cq_xplan(recs[i]['plan'])}, {cq_list(f'({cq_nat(a)}, {cq_nat(b)})' for a, b in recs[i]['foot'])})" for i in ridx]
+    bad_route = [ridx[j] for j in vlib.run_cases(rep_prefix, "route", REQ_D, "chk_route", rterms, case_type="bplan * list (nat * nat)", shard=100)[0]] if rterms else []
+    res: Dict[str, Any] = {"plans": len(recs), "families": {}, "with_tfs": sum(any(s["kind"] == "TFS" for s in p["steps"]) for p in plans),
+                           "runs_failed": sum(r["failed"] for r in recs), "per_key": {}, "disagreements": [], "too_narrow": [],
+                           "plan_only_differs": 0, "route_compared": len(rterms), "route_mismatch": len(bad_route)}
+    for r in recs:
+        res["families"][r["family"]] = res["families"].get(r["family"], 0) + 1
+    for key in KF_KEYS.values():
+        res["per_key"][key] = {"both": 0, "coq_only": 0, "python_only": 0, "neither": 0}
+    for i, r in enumerate(recs):
+        if coq[i] != coq_plan_only[i]:
+            res["plan_only_differs"] += 1
+        for key in KF_KEYS.values():
+            a, b = key in coq[i], key in py[i]
+            res["per_key"][key]["both" if a and b else "coq_only" if a else "python_only" if b else "neither"] += 1
+            if a != b:
+                res["disagreements"].append({"key": key, "coq": a, "python": b, "run_failed": r["failed"], "family": r["family"],
+                                             "coq_all": sorted(coq[i]), "python_all": sorted(py[i]), "explanation": explain(key, a, b, r["failed"]),
+                                             "spec": r["spec"]})
+        if r["failed"] and r["merge_free"] and not coq[i]:
+            res["too_narrow"].append({"spec": r["spec"], "status": r["status"], "judge": r["judge"], "exc": r["exc"], "python": sorted(py[i])})
+    res["any_domain"] = {"coq": sum(bool(c) for c in coq), "python": sum(bool(c) for c in py),
+                         "coq_not_python": sum(bool(c) and not p for c, p in zip(coq, py)),
+                         "python_not_coq": sum(bool(p) and not c for c, p in zip(coq, py))}
+    res["failed_runs_in_merge_free"] = sum(r["failed"] and r["merge_free"] for r in recs)
+    res["failed_but_python_empty"] = sum(1 for i, r in enumerate(recs) if r["failed"] and r["merge_free"] and not py[i])
+    res["route_mismatch_specs"] = [recs[i]["spec"] for i in bad_route[:5]]
+    return res
+
+
 def main(argv: List[str]) -> int:
     if len(argv) > 2 and argv[1] == "--observe":
         logging.disable(logging.CRITICAL)
         specs = json.load(open(argv[2]))
         print(json.dumps([observe(s) for s in specs]))
         return 0
+    if len(argv) > 1 and argv[1] == "compare":
+        res = compare_predicates(int(argv[2]) if len(argv) > 2 else 320, int(argv[3]) if len(argv) > 3 else 0)
+        print(json.dumps({k: v for k, v in res.items() if k not in ("disagreements", "too_narrow", "route_mismatch_specs")}, indent=1))
+        seen = set()
+        for d in res["disagreements"]:
+            sig = (d["key"], d["coq"], d["python"])
+            print("DISAGREE", d["key"], "coq" if d["coq"] else "python", "only; run failed:", d["run_failed"], d["family"], "|", d["explanation"][:110],
+                  "|", json.dumps(d["spec"])[:300] if sig not in seen else "")
+            seen.add(sig)
+        for d in res["too_narrow"]:
+            print("TOO-NARROW (failing merge-free run outside every Coq domain):", json.dumps(d)[:900])
+        for sp in res["route_mismatch_specs"]:
+            print("ROUTE-MISMATCH", json.dumps(sp)[:600])
+        return 1 if (res["too_narrow"] or res["route_mismatch"]) else 0
     n = int(argv[1]) if len(argv) > 1 else 120
     seed = int(argv[2]) if len(argv) > 2 else 0
     n_run = int(argv[3]) if len(argv) > 3 else 30
